@@ -292,10 +292,10 @@ def run(rep, prog, tier):
     shared = 'dadi/integration_shared.c'
     rep.saw_file(shared)
     # (1) telescoping identity on the C coefficients, on the reference, and on each Python assembly
-    cf, ups = c02.extract_c_abc(cprog)
-    pieces, extra = c02.split_abc(ups)
-    if set(pieces) != {'a', 'b_low', 'b_high', 'c'}:
-        raise AnalysisError('compute_abc_nobc: the four coefficient pieces were not found')
+    try:
+        cf, pieces, _wrong, _stale, _fl = c02.c_abc_contents(cprog)
+    except AlgebraError as e:
+        raise AnalysisError('compute_abc_nobc is not recognised: %s' % e)
     telescoping(rep, {k: v.expr for k, v in pieces.items()}, 'C compute_abc_nobc', shared, cf.line)
     ref = c02.reference_scheme()
     telescoping(rep, ref, 'reference flux form', 'verif:rules/c02.py', 0)
